@@ -422,9 +422,16 @@ def run_case(case):
         funcs = {"f1": (getattr(mod.f1, "__wrapped__", mod.f1), ["a", "b"]), "f2": (mod.f2, ["x", "y", "z"]),
                  "K.m": (mod.K.__dict__["m"], ["p", "q"]), "K.s": (mod.K.__dict__["s"].__func__, ["v"]),
                  "f3": (mod.f3, ["d", "lo", "hi"] if "posonly_then_kwonly_params" in case["features"] else ["d"])}
+        vals.update(dictopt_a={"a": 1}, dictopt_b={"c": "x"})
         for fname in case["traced"]:
             fn, params = funcs[fname]
             sel = case["types"][fname]
+            if sel == ["dictopt"]:
+                # two calls with records that share no key: the generated TypedDict (k > 0) has OPTIONAL keys only -
+                # one `class X(TypedDict, total=False)` and no required-keys class above it
+                for v in ("dictopt_a", "dictopt_b"):
+                    traces.append(CallTrace(fn, {p: T(v) for p in params}, T("int"), None))
+                continue
             traces.append(CallTrace(fn, {p: T(sel[i % len(sel)]) for i, p in enumerate(params)}, T(sel[-1]), None))
         strategy = ExistingAnnotationStrategy.IGNORE if case["overwrite"] else ExistingAnnotationStrategy.REPLICATE
         stubs = build_module_stubs_from_traces(traces, k, strategy, None)
@@ -584,6 +591,7 @@ TYPE_SELS = [["int"], ["circle", "int"], ["circle", "square"], ["list", "none"],
 # a class nested in a class of another module: libcst imports the outer CLASS as if it were a module (recorded finding) and the
 # result cannot be imported - which would mask everything else in the case, so these selections are drawn rarely
 RARE_TYPE_SELS = [["layer"], ["layer", "circle"]]
+OPTIONAL_ONLY = ["dictopt"]
 
 
 def pick_types(rng):
@@ -628,6 +636,14 @@ def gen_cases(pid, tier, seed):
                 cases.append({"features": sorted(["posonly_then_kwonly_params"] + extra), "traced": ["f3", "f1"],
                               "types": {"f3": ["circle", "square"], "f1": ["int"]}, "overwrite": False, "confine": conf, "k": k, "via_cli": True})
     plan.append({"family": "applications libcst gives up on, through the `apply` command (the file must be left alone)", "cases": len(cases) - n0})
+    # the ONLY generated class is a TypedDict whose keys are all optional (its base class is needed when the module is imported)
+    n0 = len(cases)
+    for conf in confs:
+        for extra in [[]] + [[f] for f in ("typing_import", "existing_tc_block", "docstring", "future_import", "import_module_runtime")]:
+            for traced in (["f3"], ["f3", "K.s"], ["f1"]):
+                cases.append({"features": sorted(extra), "traced": traced, "types": {f: ["dictopt"] for f in traced},
+                              "overwrite": False, "confine": conf, "k": 3, "via_cli": len(extra) % 2 == 1})
+    plan.append({"family": "the only generated class is a TypedDict with optional keys only", "cases": len(cases) - n0})
     # EVERY import the stub brings is a name of a module the source already imports another name from (libcst merges them
     # into the existing statement; no whole statement is new): alone and next to each other source feature
     n0 = len(cases)
